@@ -4,6 +4,7 @@ import (
 	"bytes"
 	"context"
 	"fmt"
+	"github.com/thushan/olla/internal/adapter/proxy/olla"
 	"io"
 	"net/http"
 	"sort"
@@ -55,6 +56,9 @@ func (s *wiredStack) setStatus(name string, healthy bool) {
 		st = domain.StatusUnhealthy
 	}
 	s.w.SetStatus(name, st)
+	if o, ok := s.w.Proxy.(*olla.Service); ok && healthy {
+		o.GetCircuitBreaker(name).RecordSuccess() // failures injected by one case must not leak into the next
+	}
 }
 func (s *wiredStack) discover(name string) error {
 	return s.w.Disc.DiscoverEndpoint(s.w.Ctx(), s.w.Endpoint(name))
@@ -135,6 +139,7 @@ func TestC09(t *testing.T) {
 	wg.Wait()
 	run.Require("cases_judged", int64(len(cfgs)*rep.Pick(500, 2000)))
 	run.Require("cases_landed", int64(len(cfgs)*20))
+	run.Require("dead_holder_cases", 40)
 	run.Finish(t)
 }
 
@@ -190,6 +195,9 @@ func runCfg(run *rep.Run, c cfg, id int) {
 			}
 		}
 		st.settle()
+		if L != 0 && L != 1<<N-1 && !(c.Fallback == "all" && c.Strategy != "strict") {
+			deadHolders(run, c, st, hc, backs, N, L, fmt.Sprintf("c%dL%d", id, L))
+		}
 		for H := 0; H < 1<<N; H++ {
 			for i, b := range backs {
 				st.setStatus(b.Name, H&(1<<i) != 0)
@@ -209,6 +217,61 @@ func runCfg(run *rep.Run, c cfg, id int) {
 				oneCase(run, c, st, hc, backs, N, H, L, v.route, v.spelling, v.model, fmt.Sprintf("c%dn%d", id, caseN))
 			}
 		}
+	}
+}
+
+// deadHolders: every endpoint is healthy in the repository, but the ones that list the model
+// reset proxy connections (died between two health checks). Failing over must stay inside the
+// holders: no endpoint that does not list the model may see the request.
+func deadHolders(run *rep.Run, c cfg, st stack, hc *http.Client, backs []*backend.Std, N, L int, nonce string) {
+	for i, b := range backs {
+		st.setStatus(b.Name, true)
+		if L&(1<<i) != 0 {
+			b.SetProxy(func(*backend.Record) *backend.Resp { return &backend.Resp{Fault: "reset_before_headers"} })
+		}
+	}
+	st.apply()
+	for ri, route := range []string{"proxy", "anthropic"} {
+		n := fmt.Sprintf("%sdh%d", nonce, ri)
+		path, body := "/olla/proxy/v1/chat/completions", fmt.Sprintf(`{"model":%q,"messages":[{"role":"user","content":"%s"}]}`, M, n)
+		if route == "anthropic" {
+			path, body = "/olla/anthropic/v1/messages", fmt.Sprintf(`{"model":%q,"max_tokens":8,"messages":[{"role":"user","content":"%s"}]}`, M, n)
+		}
+		for _, b := range backs {
+			b.ResetRecords()
+		}
+		req, _ := http.NewRequest("POST", st.base()+path+"?n="+n, bytes.NewReader([]byte(body)))
+		req.Header.Set("Content-Type", "application/json")
+		res := client.Do(hc, req)
+		var sawHolder, sawOther []string
+		for i, b := range backs {
+			b.WaitIdle(time.Second)
+			for _, r := range b.ProxyRecords() {
+				if strings.Contains(r.RawQuery, "n="+n) {
+					if L&(1<<i) != 0 {
+						sawHolder = append(sawHolder, b.Name)
+					} else {
+						sawOther = append(sawOther, b.Name)
+					}
+				}
+			}
+		}
+		run.Eval(fmt.Sprintf("%s/dead-holders/L=%s/%s", c, bits(L, N), route))
+		run.Count("dead_holder_cases", 1)
+		wit := map[string]any{"config": c, "listing_model": bits(L, N), "route": route, "client_status": res.Status, "attempted_holders": sawHolder, "non_holders_contacted": sawOther}
+		if len(sawOther) > 0 {
+			run.Violation("C09/sent-to-endpoint-not-listing-model/after-failed-attempt/"+route, fmt.Sprintf("the endpoints listing %q (%s) reset connections; the request was then sent to %v, which do not list it", M, bits(L, N), sawOther), wit)
+		} else if res.Status >= 200 && res.Status < 300 {
+			run.Violation("C09/2xx-without-backend/dead-holders/"+route, "every endpoint listing the model is dead, yet the client got a 2xx", wit)
+		}
+		// re-admit whatever the failed attempts took out of rotation
+		for _, b := range backs {
+			st.setStatus(b.Name, true)
+		}
+		st.apply()
+	}
+	for _, b := range backs {
+		b.SetProxy(llmresp.Handler(b.Name))
 	}
 }
 
